@@ -7,7 +7,7 @@
 (* (RdpPrims); the protocol composition is TLA+.                              *)
 EXTENDS Bytes, Text, RdpPrims
 
-LOCAL N == INSTANCE WireNla
+LOCAL N == INSTANCE WireNla WITH Strict <- TRUE
 
 ASSUME Loaded      \* refuse to run without the Java primitives
 
